@@ -3,7 +3,9 @@ C16 — Cascade replicas: source resolution terminates, never self, never quorum
 PROPERTY THEOREMS ONLY (helper lemmas: MysyncProofs/Lemmas/CascadeLemmas.lean).
 Model: MysyncModel/App/Cascade.lean (`findBestStreamFrom`, `repairCascadeNode`), NodeState.lean (HA counts).
 -/
+import Mathlib.Tactic.SplitIfs
 import MysyncModel.App.Cascade
+import MysyncModel.App.Observe
 import MysyncProofs.Lemmas.CascadeLemmas
 
 namespace C16
@@ -145,5 +147,21 @@ private def noStatus : NodeState := { pingOk := true }
 private def selfRef (master : String) : In := { streamFrom := "c1", master := master, lostTimerZero := true, candidate := .host "m" }
 example : repairCascade "c1" noStatus cs0 (selfRef "m") = [.changeMaster "m", .startSlave] := by decide
 example : repairCascade "c1" noStatus cs0 (selfRef "c1") = [.panic "performChangeMaster: host == master"] := by decide
+
+/-! ### the observation layer (MysyncModel/App/Observe.lean: `getNodeState`) -/
+
+/-- whatever probe fails, a host that the registry knows as a cascade replica is observed as one — so that a
+single failed or slow status query can never make a cascade replica look like an HA node (counted towards
+quorum, listed as active, re-pointed to the master) -/
+theorem cascade_flag_survives_probe_failures (t : Observe.Truth) (c : Bool) (f : Option Observe.Probe) (d p : Bool) :
+    (Observe.getNodeState t c f d p).isCascade = c := by
+  rcases hr : t.repl with _ | r <;> simp only [Observe.getNodeState, hr] <;> split_ifs <;> rfl
+
+/-- … and a server is observed as master only if its replica status was read and had no row -/
+theorem master_role_only_from_an_answered_status (t : Observe.Truth) (c : Bool) (f : Option Observe.Probe) (d p : Bool)
+    (h : (Observe.getNodeState t c f d p).isMaster = true) :
+    t.repl = none ∧ Observe.answered f .replicaStatus = true := by
+  rcases hr : t.repl with _ | r <;> simp only [Observe.getNodeState, hr] at h <;> split_ifs at h <;> simp_all
+
 
 end C16
